@@ -13,7 +13,7 @@ from . import common, pure, tlc
 
 class PureSpec:
     def __init__(self, prop, module, trace_module, driver, cfg, sample, variants, assumptions, rule,
-                 keep='pc = "done"', spec_files=None, drift=None, invariants_note="", extra_cases=None, in_field="in", always=None):
+                 keep='pc = "done"', spec_files=None, drift=None, invariants_note="", extra_cases=None, in_field="in", always=None, case_filter=None):
         self.prop = prop
         self.module = module
         self.trace_module = trace_module
@@ -29,7 +29,8 @@ class PureSpec:
         self.invariants_note = invariants_note
         self.extra_cases = extra_cases
         self.in_field = in_field        # which state variable is handed to the driver
-        self.always = always            # dump blocks that are never sampled away  # fn(tier) -> list of (case_in, variant): cases beyond the dumped graph (real sizes)
+        self.always = always            # dump blocks that are never sampled away
+        self.case_filter = case_filter  # restrict the dumped states to those this property owns  # fn(tier) -> list of (case_in, variant): cases beyond the dumped graph (real sizes)
 
 
 def _spec_key(files):
@@ -75,6 +76,8 @@ def run_pure(spec: PureSpec, tier: str, only_cases=None, evidence_suffix="", own
     model = model_stage(spec, tier)
     if only_cases is None:
         states, total = pure.select_states(model["dump"], spec.sample[tier], prop, keep=lambda b: spec.keep in b, always=spec.always)
+        if spec.case_filter is not None:
+            states = [s for s in states if spec.case_filter(s[spec.in_field])]
         leads = Counter()
         for s in states:
             for c in s.get("lead", []):
@@ -159,7 +162,9 @@ def selftest_pure(spec: PureSpec, tier="quick") -> int:
     """Binding test: take accepted recorded calls, corrupt one projected field at a time and require TLC to reject each."""
     common.setup_env()
     model = model_stage(spec, tier)
-    states, _ = pure.select_states(model["dump"], 400, spec.prop + "selftest", keep=lambda b: spec.keep in b)
+    states, _ = pure.select_states(model["dump"], 400 if spec.case_filter is None else None, spec.prop + "selftest", keep=lambda b: spec.keep in b)
+    if spec.case_filter is not None:
+        states = [s for s in states if spec.case_filter(s[spec.in_field])][:400]
     r = common.rng("selftest", spec.prop)
     jobs = [(i, s[spec.in_field], spec.variants("quick", r, s[spec.in_field])[0]) for i, s in enumerate(states)]
     cases = pure.replay(spec.driver, jobs)
